@@ -158,6 +158,202 @@ Theorem C20_payload_bound_insufficient :
 Proof. exact payload_bound_insufficient. Qed.
 Print Assumptions C20_payload_bound_insufficient.
 
+(* ---------------- presences: split like blocks (F-C20b, repaired) ---------------- *)
+
+(* the presence messages of a response carry, concatenated, exactly the presences that fit a
+   message, once and in order; none is empty or longer than the limit *)
+Theorem C20_presences_partition :
+  forall (mm : N) (l : list spres),
+    concat (send_response_presences mm l) = filter (fits spres (fun _ => 0) sp_elen 0 mm) l.
+Proof. exact (sent_partition spres (fun _ => 0) sp_elen 0). Qed.
+Print Assumptions C20_presences_partition.
+
+Theorem C20_presences_bounds :
+  forall (mm : N) (l : list spres),
+    Forall (fun b => b <> [] /\ sum (map (fun _ => 0) b) <= 0 /\ message_len spres sp_elen b <= mm)
+           (send_response_presences mm l).
+Proof. exact (sent_bounds spres (fun _ => 0) sp_elen 0). Qed.
+Print Assumptions C20_presences_bounds.
+
+(* with the shipped limit every presence (multihash of at most 64 bytes) is sent *)
+Theorem C20_default_presences_all_sent :
+  forall l, Forall (fun p => (length (c_digest (sp_cid p)) <= 64)%nat) l ->
+    concat (send_response_presences Consts.BITSWAP_MAX_MESSAGE_SIZE l) = l.
+Proof. exact default_presences_all_sent. Qed.
+Print Assumptions C20_default_presences_all_sent.
+
+(* F-C20b, the defect repaired by the second `fix:` commit: one unsplit presence message (what
+   the code sent before) cannot respect any message size limit *)
+Theorem C20_unsplit_presences_insufficient :
+  forall mm, 42 <= mm ->
+    exists l : list spres,
+      Forall (fun p => fits spres (fun _ => 0) sp_elen 0 mm p = true) l /\
+      mm < message_len spres sp_elen l.
+Proof. exact unsplit_presences_insufficient. Qed.
+Print Assumptions C20_unsplit_presences_insufficient.
+
+(* a whole response: its messages carry exactly the presences and the blocks that fit, in order *)
+Theorem C20_response_lossless :
+  forall mb mm ps bs,
+    flat_map omsg_presences (action_msgs mb mm (AResponse ps bs)) =
+      filter (fits spres (fun _ => 0) sp_elen 0 mm) ps /\
+    flat_map omsg_blocks (action_msgs mb mm (AResponse ps bs)) =
+      filter (fits sblock sb_dlen sb_elen mb mm) bs.
+Proof. exact response_lossless. Qed.
+Print Assumptions C20_response_lossless.
+
+(* no message of a response is ever refused by the codec's size check *)
+Theorem C20_response_within_codec_limit :
+  forall mb mm ps bs, Forall (fun m => omsg_len m <= mm) (action_msgs mb mm (AResponse ps bs)).
+Proof. exact response_msgs_within_limit. Qed.
+Print Assumptions C20_response_within_codec_limit.
+
+Theorem C20_response_written_healthy :
+  forall mb mm ps bs,
+    write_msgs mm None (action_msgs mb mm (AResponse ps bs)) =
+    (action_msgs mb mm (AResponse ps bs), 0, None, true).
+Proof. exact response_written_healthy. Qed.
+Print Assumptions C20_response_written_healthy.
+
+(* ---------------- CID bytes, wantlists (requesting side and inbound requests) ---------------- *)
+
+Theorem C20_cid_roundtrip :
+  forall c rest, cid_wf c -> cid_read_bytes (cid_to_bytes c ++ rest) = Some c.
+Proof. exact cid_roundtrip. Qed.
+Print Assumptions C20_cid_roundtrip.
+
+Theorem C20_cid_parsed_wf : forall l c, cid_read_bytes l = Some c -> cid_wf c.
+Proof. exact cid_read_bytes_wf. Qed.
+Print Assumptions C20_cid_parsed_wf.
+
+(* what send_request writes is what the peer's user is told: every representable CID, whatever
+   its codec or hash function (no hasher is needed to ask for a block) *)
+Theorem C20_request_roundtrip :
+  forall cids, Forall (fun cw => cid_wf (fst cw)) cids ->
+    inbound_wants (request_entries cids) = cids.
+Proof. exact request_roundtrip. Qed.
+Print Assumptions C20_request_roundtrip.
+
+(* entries are judged one by one ... *)
+Theorem C20_request_entries_independent :
+  forall l1 l2, inbound_wants (l1 ++ l2) = inbound_wants l1 ++ inbound_wants l2.
+Proof. exact inbound_wants_app. Qed.
+Print Assumptions C20_request_entries_independent.
+
+(* ... so an entry with an invalid CID or an unknown want type disappears without touching the rest *)
+Theorem C20_request_invalid_entry_dropped :
+  forall l1 e l2, entry_want e = None ->
+    inbound_wants (l1 ++ e :: l2) = inbound_wants (l1 ++ l2).
+Proof. exact invalid_entry_ignored. Qed.
+Print Assumptions C20_request_invalid_entry_dropped.
+
+(* every reported want comes from an entry whose bytes parse to that CID, with WantType 0 -> Block,
+   1 -> Have *)
+Theorem C20_request_reported_wellformed :
+  forall es c w, In (c, w) (inbound_wants es) ->
+    exists e, In e es /\ cid_read_bytes (we_block e) = Some c /\ we_wanttype e = want_code w /\ cid_wf c.
+Proof. exact inbound_wants_in. Qed.
+Print Assumptions C20_request_reported_wellformed.
+
+(* priority, cancel and sendDontHave are not looked at: a cancel entry is reported as a want *)
+Theorem C20_request_ignores_cancel :
+  forall b t p1 c1 s1 p2 c2 s2,
+    entry_want (mkWE b p1 c1 t s1) = entry_want (mkWE b p2 c2 t s2).
+Proof. exact entry_want_ignores. Qed.
+Print Assumptions C20_request_ignores_cancel.
+
+Theorem C20_presence_roundtrip :
+  forall c p, cid_wf c -> presence_of (cid_to_bytes c, presence_code p) = Some (c, p).
+Proof. exact presence_roundtrip. Qed.
+Print Assumptions C20_presence_roundtrip.
+
+(* ---------------- whole messages, substreams, sessions ---------------- *)
+
+Theorem C20_message_blocks_certified :
+  forall (D : Type) (digest : N -> D -> option (list N)) m c d,
+    In (c, d) (flat_map (event_blocks D) (msg_events D digest m)) ->
+    exists pb, In (pb, d) (m_payload m) /\ block_to_response D digest pb d = Some (c, d).
+Proof. exact msg_blocks_certified. Qed.
+Print Assumptions C20_message_blocks_certified.
+
+(* No partial delivery: the events of an inbound substream are those of its complete, decodable
+   frames; whatever ends it (truncated frame and close, reset, oversize or malformed length,
+   bytes that are not protobuf) contributes nothing and nothing behind it is read. *)
+Theorem C20_no_partial_delivery :
+  forall (D : Type) (digest : N -> D -> option (list N)) ms rest,
+    inbound_events D digest (map IFrame ms ++ IBad :: rest) = flat_map (msg_events D digest) ms.
+Proof. exact inbound_no_partial. Qed.
+Print Assumptions C20_no_partial_delivery.
+
+(* the sender's side of it: a write that stalls (timeout) or fails leaves complete frames and a
+   piece of one frame; the receiver delivers the complete ones only *)
+Theorem C20_sender_failure_no_partial_delivery :
+  forall (D : Type) (digest : N -> D -> option (list N)) (rx : omsg -> message D)
+         mm c ms done part c' ok rest,
+    write_msgs mm c ms = (done, part, c', ok) ->
+    inbound_events D digest (map (fun m => IFrame (rx m)) done ++ IBad :: rest) =
+      flat_map (fun m => msg_events D digest (rx m)) done /\
+    exists tail, ms = done ++ tail.
+Proof. exact sender_failure_no_partial_delivery. Qed.
+Print Assumptions C20_sender_failure_no_partial_delivery.
+
+Theorem C20_write_prefix :
+  forall mm ms c done part c' ok,
+    write_msgs mm c ms = (done, part, c', ok) ->
+    exists rest,
+      ms = done ++ rest /\
+      (ok = true -> rest = [] /\ part = 0) /\
+      (ok = false -> rest <> []) /\
+      Forall (fun m => omsg_len m <= mm) done.
+Proof. exact write_msgs_spec. Qed.
+Print Assumptions C20_write_prefix.
+
+(* For every session — whatever was asked for, whoever answers, in any number of messages and in
+   any order: every block handed to the user hashes to the CID it is reported under. *)
+Theorem C20_session_blocks_certified :
+  forall (D : Type) (digest : N -> D -> option (list N)) ops c d,
+    In (c, d) (flat_map (event_blocks D) (session_events D digest ops)) ->
+    digest (c_code c) d = Some (c_digest c) /\ cid_valid c /\ (length (c_digest c) <= 64)%nat.
+Proof. exact session_blocks_certified. Qed.
+Print Assumptions C20_session_blocks_certified.
+
+(* litep2p itself keeps no record of what was asked for.  "Only requested" and "at most once" do
+   NOT hold for the events it emits: *)
+Theorem C20_only_requested_refuted :
+  exists ops : list (sess_op N),
+    requested N ops = [] /\
+    In (demo_cid, 7) (flat_map (event_blocks N) (session_events N demo_digest ops)).
+Proof. exact unsolicited_delivered. Qed.
+Print Assumptions C20_only_requested_refuted.
+
+Theorem C20_no_duplicate_delivery_refuted :
+  exists ops : list (sess_op N),
+    requested N ops = [demo_cid] /\
+    flat_map (event_blocks N) (session_events N demo_digest ops) = [(demo_cid, 7); (demo_cid, 7)].
+Proof. exact duplicate_delivered. Qed.
+Print Assumptions C20_no_duplicate_delivery_refuted.
+
+(* What self-certification buys: a client that keeps a want set (Model.client_run — not part of
+   litep2p) accepts, for every interleaving of its requests and of incoming messages, only blocks
+   it asked for before they arrived, each hashing to its CID, ... *)
+Theorem C20_only_requested_with_want_filter :
+  forall (D : Type) (digest : N -> D -> option (list N)) ops want c d,
+    In (c, d) (client_run D digest want ops) ->
+    exists o1 m o2,
+      ops = o1 ++ SIncoming m :: o2 /\
+      (In c want \/ In c (requested D o1)) /\
+      In (c, d) (flat_map (event_blocks D) (msg_events D digest m)) /\
+      digest (c_code c) d = Some (c_digest c).
+Proof. exact client_only_requested. Qed.
+Print Assumptions C20_only_requested_with_want_filter.
+
+(* ... and no CID more often than it was asked for *)
+Theorem C20_no_duplicate_delivery_with_want_filter :
+  forall (D : Type) (digest : N -> D -> option (list N)) ops want c,
+    (cnt D c (client_run D digest want ops) <= memn c want + req_count D c ops)%nat.
+Proof. exact client_no_duplicates. Qed.
+Print Assumptions C20_no_duplicate_delivery_with_want_filter.
+
 (* non-vacuity *)
 Example C20_nonvacuous_batching :
   let l := [mkSB 0 (mkCid 1 85 18 (repeat 0 32%nat)) 10; mkSB 1 (mkCid 1 85 18 (repeat 0 32%nat)) 101;
